@@ -1,0 +1,49 @@
+//go:build verif
+
+package ds
+
+// Contracts for package ds, read by /verif/govc (comment-only file, build tag verif).
+// The generic contracts below are checked once per instantiation that the program uses.
+
+// ---- Stack[T]: s.store[0:len] is the stack, top at the end ----
+
+//@ func (*Stack).IsEmpty [C03 C09 C10 C02]
+//@   requires s != nil
+//@   ensures result == (len(s.store) == 0)
+//@ func (*Stack).Size [C03 C09 C10 C02]
+//@   requires s != nil
+//@   ensures result == len(s.store)
+//@ func (*Stack).Peek [C03 C09 C10 C02]
+//@   requires s != nil
+//@   ensures empty: len(s.store) == 0 ==> result == nil
+//@   ensures top: len(s.store) > 0 ==> result == &s.store[len(s.store) - 1] && result != nil
+//@ func (*Stack).Index [C03 C09 C10 C02]
+//@   requires s != nil
+//@   ensures out: (index < 0 || index >= len(s.store)) ==> result == nil
+//@   ensures in: (0 <= index && index < len(s.store)) ==> result == &s.store[index] && result != nil
+//@ func (*Stack).Push [C03 C09 C10 C02]
+//@   requires s != nil
+//@   let n := len(s.store)
+//@   let old_store := s.store
+//@   modifies s.store, elems(s.store)
+//@   ensures len: len(s.store) == n + 1
+//@   ensures where: (s.store.ref == old_store.ref && s.store.lo == old_store.lo) || fresh(s.store)
+//@   ensures kept: forall i :: { s.store[i] } 0 <= i && i < n ==> s.store[i] == old(old_store[i])
+//@   ensures top: s.store[n] == value
+//@ func (*Stack).Pop [C03 C09 C10 C02]
+//@   requires s != nil
+//@   let n := len(s.store)
+//@   let old_store := s.store
+//@   modifies s.store
+//@   ensures empty: n == 0 ==> result == nil && s.store == old_store
+//@   ensures some: n > 0 ==> result != nil && fresh(result) && len(s.store) == n - 1 && s.store.ref == old_store.ref && s.store.lo == old_store.lo
+//@   ensures value: n > 0 ==> *result == old(old_store[n - 1])
+//@ func NewStack [C03 C09 C10 C02]
+//@   ensures result != nil && fresh(result) && result.store.ref == 0 && len(result.store) == 0 && cap(result.store) == 0
+//@ func (*Stack).Copy [C03 C09 C10 C02]
+//@   requires s != nil
+//@   ensures fresh: result != nil && fresh(result) && fresh(result.store) && len(result.store) == len(s.store)
+//@   ensures same: forall i :: { result.store[i] } 0 <= i && i < len(s.store) ==> result.store[i] == s.store[i]
+//@   loop 1 invariant result != nil && fresh(result) && fresh(result.store) && (result.store.ref != s.store.ref || result.store.ref == 0) && len(result.store) == rangeindex + 1 && rangeindex + 1 <= len(s.store)
+//@   loop 1 invariant forall i :: { result.store[i] } 0 <= i && i <= rangeindex ==> result.store[i] == s.store[i]
+//@   loop 1 invariant s.store == old(s.store) && forall i :: { s.store[i] } 0 <= i && i < len(s.store) ==> s.store[i] == old(s.store[i])
